@@ -73,10 +73,14 @@ def txnfail_case():
             "threads": [ops, [{"t": "batch", "parts": [part(2, 1)]}]]}
 
 
-def forced_case(procs=2):
-    a = {"t": "txn", "parts": [part(1, 1), part(2, 1)]}
-    b = {"t": "txn", "parts": [part(2, 1), part(1, 1)]}
-    return {"kind": "forced", "procs": procs, "nds": 2, "groups": [], "threads": [[a], [b]], "readers": 0, "attempts": ATTEMPTS}
+def forced_case(procs=2, d1=1, d2=2, twins=0):
+    a = {"t": "txn", "parts": [part(d1, 1), part(d2, 1)]}
+    b = {"t": "txn", "parts": [part(d2, 1), part(d1, 1)]}
+    return {"kind": "forced", "procs": procs, "nds": 2, "twins": twins, "groups": [], "threads": [[a], [b]], "readers": 0,
+            "attempts": ATTEMPTS}
+
+
+TWIN_UP, TWIN_LO = 1000, 2000  # dataset codes of the names dXjj / dxjj, which differ only in case
 
 
 def coretxn_case(new_other=1):
@@ -98,7 +102,7 @@ def small_mix():
 
 
 def witness_cases():
-    return [forced_case(2), coretxn_case(1), coretxn_case(0), small_mix(), race_case(2), race_case(1), cocreate_case(2), cocreate_case(8),
+    return [forced_case(2), forced_case(2, TWIN_UP, TWIN_LO, 1), coretxn_case(1), coretxn_case(0), small_mix(), race_case(2), race_case(1), cocreate_case(2), cocreate_case(8),
             txnfail_case()]
 
 
@@ -119,6 +123,9 @@ def gen_mix(rng, big=False):
         n = min(len(ds), rng.range(2, 3))
         groups.append(sorted(ds[:n]))
         ds = ds[n:]
+    twins = 1 if rng.chance(1, 2) else 0
+    if twins:
+        groups.append([TWIN_UP, TWIN_LO])  # two names that differ only in case, locked together by the group's owner
     owned = {}
     for g in range(len(groups)):
         owned.setdefault(g % T, []).append(g)
@@ -203,7 +210,8 @@ def gen_mix(rng, big=False):
                 else:
                     ops.append({"t": "delete", "d": nextp + 12, "present": False})
         threads.append(ops)
-    return {"kind": "mix", "procs": procs, "nds": nds, "groups": groups, "threads": threads, "readers": readers, "watch": late}
+    return {"kind": "mix", "procs": procs, "nds": nds, "groups": groups, "threads": threads, "readers": readers, "watch": late,
+            "twins": twins}
 
 
 def gen(rng, tier):
@@ -218,6 +226,7 @@ def gen(rng, tier):
         return out
     for p in (1, 8):
         out.append(forced_case(p))
+        out.append(forced_case(p, TWIN_UP, TWIN_LO, 1))
     for _ in range(1200):
         out.append(gen_mix(rng, True))
     return out
@@ -315,7 +324,7 @@ def run_term(c, r, kbase):
             snaps.append("(%s, %d%%N)" % (lk(d), n))
         else:
             bad += 1
-    bad += r.get("torn", 0)
+    bad += r.get("torn", 0) + r.get("attorn", 0)
     times = ["(%s, %s)" % (lk(int(d)), nl(ts)) for d, ts in sorted((r.get("times") or {}).items(), key=lambda x: int(x[0]))]
     looks = ["(%d%%N, %d%%N)" % (max(a, 0), b if b >= 0 else 999999999) for _, a, b in (r.get("looks") or [])]
     return ("{| r_ops := %s; r_outcome := %d%%N; r_trace := %s; r_errs := %s; r_feeds := %s; r_snaps := %s; r_times := %s; r_lookups := %s; r_bad := %d%%N |}" % (
